@@ -73,10 +73,23 @@ const (
 	pXAssert // assertion of X + client_id=Y
 	pXPost   // form client_id=X, client_secret=secret(X) + Basic Y:wrong
 	pXPostID // form client_id=Y, client_secret=secret(X)
+	pXDup    // body client_id=X, client_secret=secret(X) + URL query client_id=Y
 )
 
-var crossN = map[int]string{pXBasic: "PXBasic", pXAssert: "PXAssert", pXPost: "PXPost", pXPostID: "PXPostId"}
-var crossT = map[int]string{pXBasic: "cross_basic", pXAssert: "cross_assertion", pXPost: "cross_post_basic_other", pXPostID: "cross_post_other_id"}
+var crossN = map[int]string{pXBasic: "PXBasic", pXAssert: "PXAssert", pXPost: "PXPost", pXPostID: "PXPostId", pXDup: "PXDup"}
+var crossT = map[int]string{pXBasic: "cross_basic", pXAssert: "cross_assertion", pXPost: "cross_post_basic_other", pXPostID: "cross_post_other_id", pXDup: "cross_dup_client_id"}
+
+// where parameters travel
+var gplaceN = []string{"GPBody", "GPQuery", "GPBothSame", "GPBothDiff"}
+var gplaceT = []string{"body", "query", "both_same", "both_diff"}
+var placeN = []string{"InBody", "InQuery"}
+var placeT = []string{"body", "query"}
+
+type plT struct{ Grant, Client, Art int }
+
+func (p plT) coq() string {
+	return emit.Ctor("mkPl", gplaceN[p.Grant], placeN[p.Client], placeN[p.Art])
+}
 
 type cfgT struct{ Post, PKJWT, Refresh, CC, TE, Dev bool }
 
@@ -94,6 +107,7 @@ type presT struct {
 	Pct   bool // basic credentials percent-encoded byte by byte
 	BadID bool // malformed escape sits in the id part (else in the secret)
 	A     int  // assertion kind
+	VM    int  // cross-client kinds: auth method the second client Y is registered with
 }
 
 type caseT struct {
@@ -103,6 +117,7 @@ type caseT struct {
 	Reg      regT
 	Pres     presT
 	Grant    int
+	Pl       plT
 	Tag      string // extra tag for directed cases
 }
 
@@ -135,7 +150,7 @@ func (p presT) coq() string {
 	case pBoth:
 		return emit.Ctor("PBoth", secN[p.B], secN[p.P])
 	}
-	return crossN[p.Kind]
+	return emit.Ctor(crossN[p.Kind], methN[p.VM])
 }
 func (p presT) tag() string {
 	switch p.Kind {
@@ -161,7 +176,7 @@ func (p presT) tag() string {
 	return "both_" + strings.ToLower(secN[p.B][1:]) + "_" + strings.ToLower(secN[p.P][1:])
 }
 func (c caseT) coq() string {
-	return emit.Ctor("mkInput", routerN[c.Router], endpointN[c.Endpoint], c.Cfg.coq(), c.Reg.coq(), c.Pres.coq(), grantN[c.Grant])
+	return emit.Ctor("mkInput", routerN[c.Router], endpointN[c.Endpoint], c.Cfg.coq(), c.Reg.coq(), c.Pres.coq(), grantN[c.Grant], c.Pl.coq())
 }
 
 func onoff(b bool) string {
@@ -184,6 +199,13 @@ func (c caseT) tags() []string {
 		}
 	} else if c.Endpoint == eDeviceAuthz {
 		t = append(t, "grant_registered="+onoff(c.Reg.Grants[gDevice]))
+	}
+	t = append(t, "pl_client="+placeT[c.Pl.Client], "pl_artefact="+placeT[c.Pl.Art])
+	if c.Endpoint == eToken {
+		t = append(t, "pl_grant="+gplaceT[c.Pl.Grant])
+	}
+	if c.Pres.Kind >= pXBasic {
+		t = append(t, "victim="+strings.ToLower(methN[c.Pres.VM][1:]))
 	}
 	if c.Tag != "" {
 		t = append(t, c.Tag)
@@ -284,8 +306,14 @@ func run(c caseT) outcome {
 	owner := id
 	if cross {
 		owner = vid
-		v := &refstore.Client{ID: vid, Secret: "sec-" + vid, Redirects: []string{redirectURI}, App: op.ApplicationTypeWeb, Auth: oidc.AuthMethodBasic,
+		v := &refstore.Client{ID: vid, Secret: "sec-" + vid, Redirects: []string{redirectURI}, App: op.ApplicationTypeWeb, Auth: methV[c.Pres.VM],
 			RespTypes: []oidc.ResponseType{oidc.ResponseTypeCode}, ATType: op.AccessTokenTypeBearer}
+		if c.Pres.VM >= 2 {
+			v.Secret = "\x00no-secret-" + vid
+		}
+		if c.Pres.VM == 2 {
+			v.Keys = map[string]*jose.JSONWebKey{"k1": {Key: &otherKey.PublicKey, KeyID: "k1", Algorithm: "ES256", Use: "sig"}}
+		}
 		for i := 0; i < 7; i++ {
 			v.Grants = append(v.Grants, oidc.GrantType(grantV[i]))
 		}
@@ -315,9 +343,6 @@ func run(c caseT) outcome {
 	switch c.Endpoint {
 	case eToken:
 		path = "/oauth/token"
-		if c.Grant != gMissing {
-			form.Set("grant_type", grantV[c.Grant])
-		}
 		switch c.Grant {
 		case gCode:
 			rid := "req-" + id
@@ -366,6 +391,8 @@ func run(c caseT) outcome {
 	}
 
 	// presentation
+	cform := url.Values{}
+	dupQueryID := ""
 	basicID, basicSec, useBasic := "", "", false
 	sec := func(k int) string {
 		if k == 0 {
@@ -375,7 +402,7 @@ func run(c caseT) outcome {
 	}
 	switch c.Pres.Kind {
 	case pIDOnly:
-		form.Set("client_id", id)
+		cform.Set("client_id", id)
 	case pBasic:
 		basicID, basicSec, useBasic = id, sec(c.Pres.B), true
 		if c.Pres.Pct {
@@ -389,38 +416,88 @@ func run(c caseT) outcome {
 			basicSec += "%zz"
 		}
 	case pPost:
-		form.Set("client_id", id)
-		form.Set("client_secret", sec(c.Pres.P))
+		cform.Set("client_id", id)
+		cform.Set("client_secret", sec(c.Pres.P))
 	case pAssert:
-		form.Set("client_assertion_type", oidc.ClientAssertionTypeJWTAssertion)
+		cform.Set("client_assertion_type", oidc.ClientAssertionTypeJWTAssertion)
 		switch c.Pres.A {
 		case 0:
-			form.Set("client_assertion", signAssertion(rightKey, id, []string{opfix.Issuer}))
+			cform.Set("client_assertion", signAssertion(rightKey, id, []string{opfix.Issuer}))
 		case 1:
-			form.Set("client_assertion", signAssertion(otherKey, id, []string{opfix.Issuer}))
+			cform.Set("client_assertion", signAssertion(otherKey, id, []string{opfix.Issuer}))
 		default:
-			form.Set("client_assertion", signAssertion(rightKey, id, []string{"https://other.example.com"}))
+			cform.Set("client_assertion", signAssertion(rightKey, id, []string{"https://other.example.com"}))
 		}
 	case pBoth:
 		basicID, basicSec, useBasic = id, sec(c.Pres.B), true
-		form.Set("client_id", id)
-		form.Set("client_secret", sec(c.Pres.P))
+		cform.Set("client_id", id)
+		cform.Set("client_secret", sec(c.Pres.P))
 	case pXBasic:
 		basicID, basicSec, useBasic = id, secret, true
-		form.Set("client_id", vid)
+		cform.Set("client_id", vid)
 	case pXAssert:
-		form.Set("client_assertion_type", oidc.ClientAssertionTypeJWTAssertion)
-		form.Set("client_assertion", signAssertion(rightKey, id, []string{opfix.Issuer}))
-		form.Set("client_id", vid)
+		cform.Set("client_assertion_type", oidc.ClientAssertionTypeJWTAssertion)
+		cform.Set("client_assertion", signAssertion(rightKey, id, []string{opfix.Issuer}))
+		cform.Set("client_id", vid)
 	case pXPost:
 		basicID, basicSec, useBasic = vid, "wrong-secret", true
-		form.Set("client_id", id)
-		form.Set("client_secret", secret)
+		cform.Set("client_id", id)
+		cform.Set("client_secret", secret)
 	case pXPostID:
-		form.Set("client_id", vid)
-		form.Set("client_secret", secret)
+		cform.Set("client_id", vid)
+		cform.Set("client_secret", secret)
+	case pXDup:
+		cform.Set("client_id", id)
+		cform.Set("client_secret", secret)
+		dupQueryID = vid
 	}
-	req := httptest.NewRequest(http.MethodPost, opfix.Issuer+path, strings.NewReader(form.Encode()))
+	// placement
+	body, query := url.Values{}, url.Values{}
+	put := func(dst, src url.Values) {
+		for k, vs := range src {
+			for _, v := range vs {
+				dst.Add(k, v)
+			}
+		}
+	}
+	if c.Pl.Art == 0 {
+		put(body, form)
+	} else {
+		put(query, form)
+	}
+	if c.Pl.Client == 0 {
+		put(body, cform)
+	} else {
+		put(query, cform)
+	}
+	if dupQueryID != "" {
+		query.Add("client_id", dupQueryID) // after X's id when that travels in the query too
+	}
+	if c.Endpoint == eToken && c.Grant != gMissing {
+		g := grantV[c.Grant]
+		switch c.Pl.Grant {
+		case 0:
+			body.Set("grant_type", g)
+		case 1:
+			query.Set("grant_type", g)
+		case 2:
+			body.Set("grant_type", g)
+			query.Set("grant_type", g)
+		default: // the query names another grant, for which the request carries no artefact
+			body.Set("grant_type", g)
+			alt := grantV[gRefresh]
+			if c.Grant == gRefresh {
+				alt = grantV[gCode]
+			}
+			query.Set("grant_type", alt)
+		}
+	}
+	target := opfix.Issuer + path
+	if len(query) > 0 {
+		target += "?" + query.Encode()
+	}
+
+	req := httptest.NewRequest(http.MethodPost, target, strings.NewReader(body.Encode()))
 	req.Header.Set("Content-Type", "application/x-www-form-urlencoded")
 	if useBasic {
 		req.Header.Set("Authorization", "Basic "+base64.StdEncoding.EncodeToString([]byte(basicID+":"+basicSec)))
@@ -527,8 +604,32 @@ func allPres() []presT {
 	for a := 0; a < 3; a++ {
 		ps = append(ps, presT{Kind: pAssert, A: a})
 	}
-	ps = append(ps, presT{Kind: pXBasic}, presT{Kind: pXAssert}, presT{Kind: pXPost}, presT{Kind: pXPostID})
 	return ps
+}
+
+var crossKinds = []int{pXBasic, pXAssert, pXPost, pXPostID, pXDup}
+
+// drawPres: one of the 16 single-client presentations or (1 in 4) a cross-client one
+func drawPres(r drv.Rand) presT {
+	if r.Chance(1, 4) {
+		return presT{Kind: drv.Pick(r, crossKinds), VM: r.IntN(4)}
+	}
+	return drv.Pick(r, allPres())
+}
+
+// drawPl: mostly everything in the body
+func drawPl(r drv.Rand) plT {
+	var p plT
+	if r.Chance(1, 4) {
+		p.Grant = 1 + r.IntN(3)
+	}
+	if r.Chance(1, 5) {
+		p.Client = 1
+	}
+	if r.Chance(1, 5) {
+		p.Art = 1
+	}
+	return p
 }
 
 func bits(n, k int) bool { return n>>k&1 == 1 }
@@ -579,8 +680,8 @@ func randomCase(r drv.Rand) caseT {
 	}
 	c.Reg.HasKey = c.Reg.Meth == 2 && !r.Chance(1, 6) || c.Reg.Meth != 2 && r.Chance(1, 2)
 	// presentation: the one fitting the registration half of the time, anything otherwise
-	ps := allPres()
-	c.Pres = drv.Pick(r, ps)
+	c.Pres = drawPres(r)
+	c.Pl = drawPl(r)
 	if r.Bool() {
 		switch c.Reg.Meth {
 		case 0:
@@ -644,7 +745,8 @@ func directed() []caseT {
 
 // systematic: run in both tiers. (1) every router x endpoint/grant x auth method x application type with
 // everything enabled and registered, once with the credential fitting the method and once with client_id only;
-// (2) every router x endpoint/grant x cross-client presentation for a basic and a private_key_jwt client X.
+// (2) every router x endpoint/grant x cross-client presentation x auth method of the second client, for a basic and a
+// private_key_jwt client X; (3) every router x endpoint/grant x placement of grant_type / client parameters / artefact.
 func systematic() []caseT {
 	allOn := cfgT{true, true, true, true, true, true}
 	var cs []caseT
@@ -663,10 +765,32 @@ func systematic() []caseT {
 					}
 				}
 			}
-			for _, k := range []int{pXBasic, pXAssert, pXPost, pXPostID} {
+			for _, k := range crossKinds {
 				for _, meth := range []int{0, 2} {
-					rg := regT{Known: true, Meth: meth, App: 0, Grants: full(), HasKey: true}
-					cs = append(cs, caseT{Router: router, Endpoint: x.e, Grant: x.g, Cfg: allOn, Reg: rg, Pres: presT{Kind: k}, Tag: "block=cross_client"})
+					for vm := 0; vm < 4; vm++ {
+						rg := regT{Known: true, Meth: meth, App: 0, Grants: full(), HasKey: true}
+						cs = append(cs, caseT{Router: router, Endpoint: x.e, Grant: x.g, Cfg: allOn, Reg: rg, Pres: presT{Kind: k, VM: vm}, Tag: "block=cross_client"})
+					}
+				}
+			}
+			// (3) where the parameters travel: one dimension moved at a time, client registered for the grant at
+			// stake or not, secret in the header or in the form
+			pls := []plT{{1, 0, 0}, {2, 0, 0}, {3, 0, 0}, {0, 1, 0}, {0, 0, 1}, {1, 1, 1}}
+			for _, pl := range pls {
+				if x.e != eToken && pl.Grant != 0 && pl.Client == 0 {
+					continue // no grant_type on the other endpoints
+				}
+				for _, regd := range []bool{true, false} {
+					for _, pr := range []presT{{Kind: pBasic}, {Kind: pPost}} {
+						gr := full()
+						if gg := grantOf(x.e, x.g); gg >= 0 {
+							gr[gg] = regd
+						} else if !regd {
+							continue
+						}
+						rg := regT{Known: true, Meth: pr.Kind / pPost, App: 0, Grants: gr, HasKey: true}
+						cs = append(cs, caseT{Router: router, Endpoint: x.e, Grant: x.g, Cfg: allOn, Reg: rg, Pres: pr, Pl: pl, Tag: "block=placement"})
+					}
 				}
 			}
 		}
@@ -679,6 +803,9 @@ func systematic() []caseT {
 // provider flags are enumerated while the capability at stake is enumerated and the other two are drawn.
 func enumerate(r drv.Rand, emitCase func(caseT)) {
 	ps := allPres()
+	for _, k := range crossKinds {
+		ps = append(ps, presT{Kind: k})
+	}
 	for router := 0; router < 2; router++ {
 		for e := 0; e < 4; e++ {
 			grants := []int{gMissing}
@@ -691,7 +818,8 @@ func enumerate(r drv.Rand, emitCase func(caseT)) {
 						for _, p := range ps {
 							for flags := 0; flags < 8; flags++ {
 								for v := 0; v < 8; v++ { // v: known/registered/key/capability variants
-									c := caseT{Router: router, Endpoint: e, Grant: g, Pres: p}
+									c := caseT{Router: router, Endpoint: e, Grant: g, Pres: p, Pl: drawPl(r)}
+									c.Pres.VM = r.IntN(4)
 									c.Cfg = cfgT{bits(flags, 0), bits(flags, 1), bits(flags, 2), r.Bool(), r.Bool(), r.Bool()}
 									capOn := bits(v, 0)
 									switch grantOf(e, g) {
@@ -719,7 +847,8 @@ func enumerate(r drv.Rand, emitCase func(caseT)) {
 								}
 							}
 							// unknown client: once per presentation
-							c := caseT{Router: router, Endpoint: e, Grant: g, Pres: p, Cfg: cfgOf(r.IntN(64) | 7*r.IntN(2))}
+							c := caseT{Router: router, Endpoint: e, Grant: g, Pres: p, Pl: drawPl(r), Cfg: cfgOf(r.IntN(64) | 7*r.IntN(2))}
+							c.Pres.VM = r.IntN(4)
 							c.Reg = regT{Known: false, Meth: meth, App: app, HasKey: r.Bool()}
 							emitCase(c)
 						}
@@ -733,7 +862,11 @@ func enumerate(r drv.Rand, emitCase func(caseT)) {
 func main() {
 	cfg := drv.Parse()
 	r := drv.NewRand(cfg.Seed)
-	w := emit.NewWriter(cfg.Out, "C05_spec", 0, cfg.Only)
+	shard := 0 // quick: spread over 16 coqc processes
+	if !cfg.Quick && cfg.N == 0 {
+		shard = 1000 // thorough: coqc needs ~0.6 GB per 1000 cases
+	}
+	w := emit.NewWriter(cfg.Out, "C05_spec", shard, cfg.Only)
 
 	add := func(c caseT) {
 		var o outcome
